@@ -114,6 +114,10 @@ pub struct DlScenario {
     /// The map runtime is given the strategy that ignores bad frames (false: it aborts on one; none is sent then).
     #[serde(default)]
     pub ignore_bad_frames: bool,
+    /// The map runtime is built with `with_interpretation(.., NoInterpretation)` (the map-*event* downlink: event bodies
+    /// are passed on as they are) instead of `new`.
+    #[serde(default)]
+    pub no_interpretation: bool,
     pub ending: DlEnding,
     /// At quiescence (consumers attached) let time pass: the runtime must not stop.
     pub idle_probe: bool,
@@ -217,6 +221,7 @@ pub fn generate(seed: u64, map: bool) -> DlScenario {
     }
     DlScenario {
         map,
+        no_interpretation: map && !ignore_bad_frames && root.sub("no-interpretation").chance(1, 4),
         ignore_bad_frames,
         consumers,
         remote,
@@ -303,6 +308,8 @@ type SharedHist = Rc<RefCell<Hist>>;
 #[derive(Default)]
 struct Flags {
     drain: bool,
+    /// The runtime passes event bodies on as they are (Recon text) instead of re-encoded map messages.
+    raw_events: bool,
 }
 
 struct Yield(bool);
@@ -430,7 +437,23 @@ impl Future for ConsumerReader {
                             }
                             let _ = this.buf.split_to(9);
                             let mut body = this.buf.split_to(len);
-                            if this.map {
+                            let raw_events = this.src.as_ref().map(|s| s.flags.borrow().raw_events).unwrap_or(false);
+                            if this.map && raw_events {
+                                let text = String::from_utf8_lossy(body.as_ref()).to_string();
+                                match parse_recognize::<MapMessage<swimos_model::Value, i32>>(text.as_str(), false) {
+                                    Ok(MapMessage::Update { key, value }) => match key_of_value(&key) {
+                                        Some(k) => Note::Map(MapEv::Update(k, value)),
+                                        None => Note::Undecodable(format!("unknown key {key} in {text}")),
+                                    },
+                                    Ok(MapMessage::Remove { key }) => match key_of_value(&key) {
+                                        Some(k) => Note::Map(MapEv::Remove(k)),
+                                        None => Note::Undecodable(format!("unknown key {key} in {text}")),
+                                    },
+                                    Ok(MapMessage::Clear) => Note::Map(MapEv::Clear),
+                                    Ok(other) => Note::Map(MapEv::Other(format!("{:?}", other))),
+                                    Err(e) => Note::Undecodable(format!("{e} in {text}")),
+                                }
+                            } else if this.map {
                                 let text = format!("{:?}", body.as_ref());
                                 match this.mdec_body.decode_eof(&mut body) {
                                     Ok(Some(MapMessage::Update { key, value })) => match key_of_value(&key) {
@@ -768,7 +791,7 @@ async fn run(sc: &DlScenario) -> Record {
     };
     let mut exec = Exec::new(Scheduler::new(Rng::new(sc.sched_seed), policy, 1000), EventLog::new(false));
     let hist: SharedHist = Rc::new(RefCell::new(Hist::default()));
-    let flags = Rc::new(RefCell::new(Flags::default()));
+    let flags = Rc::new(RefCell::new(Flags { raw_events: sc.no_interpretation, ..Default::default() }));
     let spawn: SpawnQueue = Rc::new(RefCell::new(vec![]));
 
     let (att_tx, att_rx) = mpsc::channel::<AttachAction>(sc.att_queue.max(1) as usize);
@@ -786,7 +809,13 @@ async fn run(sc: &DlScenario) -> Record {
     let done: Rc<RefCell<Option<(u64, u64)>>> = Rc::new(RefCell::new(None));
     let done2 = done.clone();
     let rt_node = if sc.map {
-        if sc.ignore_bad_frames {
+        if sc.no_interpretation {
+            let rt = MapDownlinkRuntime::with_interpretation(att_rx, (rt_out_tx, rt_in_rx), stop_rx, address, config, AlwaysAbortStrategy, swimos_runtime::downlink::NoInterpretation);
+            exec.spawn("runtime", sc.budget as usize, async move {
+                rt.run().await;
+                *done2.borrow_mut() = Some((now_step(), (tokio::time::Instant::now() - t0).as_millis() as u64));
+            })
+        } else if sc.ignore_bad_frames {
             let rt = MapDownlinkRuntime::new(att_rx, (rt_out_tx, rt_in_rx), stop_rx, address, config, AlwaysIgnoreStrategy);
             exec.spawn("runtime", sc.budget as usize, async move {
                 rt.run().await;
